@@ -284,7 +284,14 @@ class PyReader:
             return num(v)
         self.fail(n, f"expected a scalar, got {type(v).__name__}")
 
+    def hook_call(self, n: ast.Call, env: dict, fns: dict):
+        """hook for rule-specific callees; return NotImplemented to fall through"""
+        return NotImplemented
+
     def ev_call(self, n: ast.Call, env: dict, fns: dict):
+        r = self.hook_call(n, env, fns)
+        if r is not NotImplemented:
+            return r
         f = dotted(n.func) or ""
         name = f.split(".")[-1]
         if name == "reduce" and len(n.args) in (2, 3) and isinstance(n.args[0], ast.Name) and n.args[0].id == "add" and self._imports("operator", "add"):
